@@ -269,6 +269,16 @@ pub struct Sim {
 
 thread_local! {
     static CUR: RefCell<Option<(Arc<Sim>, usize)>> = const { RefCell::new(None) };
+    static SUSPENDED: std::cell::Cell<bool> = const { std::cell::Cell::new(false) };
+}
+
+/// Runs harness-internal code (oracle checks that format or compare values of
+/// the seam data type) without scheduling points and without fault injection.
+pub fn suspended<R>(f: impl FnOnce() -> R) -> R {
+    let old = SUSPENDED.with(|s| s.replace(true));
+    let r = f();
+    SUSPENDED.with(|s| s.set(old));
+    r
 }
 
 fn lock(m: &Mutex<Inner>) -> MutexGuard<'_, Inner> {
@@ -565,6 +575,9 @@ impl Sim {
 /// Scheduling point reachable from anywhere (exmex hook callback, data type
 /// seams). A no-op on threads that are not attached to a simulator.
 pub fn point(site: u8) {
+    if SUSPENDED.with(|s| s.get()) {
+        return;
+    }
     let cur = CUR.with(|c| c.borrow().as_ref().map(|(s, t)| (s.clone(), *t)));
     match cur {
         Some((sim, tid)) => sim.point(tid, site),
